@@ -152,5 +152,144 @@ pub mod lemmas {
         }
     }
 
+
+    // ---------------------------------------------------------------------------------------------
+    // C12 (FASTQ): the rule functions read a list of records back from its text, for LF and for CRLF, with or
+    // without a terminator after the last line
+    // ---------------------------------------------------------------------------------------------
+    /// one record as its four lines: '@' + header, sequence, '+' + anything, quality
+    pub struct FqRec { pub head: Seq<u8>, pub seq: Seq<u8>, pub sep: Seq<u8>, pub qual: Seq<u8> }
+    pub open spec fn fq_lines(rs: Seq<FqRec>) -> Seq<Seq<u8>> {
+        Seq::new((4 * rs.len()) as nat, |i: int| {
+            let r = rs[i / 4];
+            if i % 4 == 0 { seq![64u8] + r.head } else if i % 4 == 1 { r.seq } else if i % 4 == 2 { seq![43u8] + r.sep } else { r.qual }
+        })
+    }
+    /// every line CRLF-terminated (crlf) or LF-terminated (!crlf); an unterminated last line carries no CR
+    pub open spec fn uniform(n: nat, crlf: bool, fin: bool) -> Seq<bool> {
+        Seq::new(n, |i: int| crlf && (i + 1 < n || fin))
+    }
+    /// field restrictions of the property: no LF inside fields, no field ends in CR, equal lengths
+    pub open spec fn fq_fields_ok(rs: Seq<FqRec>) -> bool {
+        forall|k: int| 0 <= k < rs.len() ==> {
+            let r = #[trigger] rs[k];
+            &&& r.seq.len() == r.qual.len()
+            &&& (forall|j: int| 0 <= j < r.head.len() ==> r.head[j] != 10u8) && (forall|j: int| 0 <= j < r.seq.len() ==> r.seq[j] != 10u8)
+            &&& (forall|j: int| 0 <= j < r.sep.len() ==> r.sep[j] != 10u8) && (forall|j: int| 0 <= j < r.qual.len() ==> r.qual[j] != 10u8)
+            &&& !ends_cr(seq![64u8] + r.head) && !ends_cr(r.seq) && !ends_cr(seq![43u8] + r.sep) && !ends_cr(r.qual)
+        }
+    }
+
+    /// the text of the record list, and the offset of its k-th record
+    pub open spec fn fq_text(rs: Seq<FqRec>, crlf: bool, fin: bool) -> Seq<u8> { full(fq_lines(rs), uniform(4 * rs.len(), crlf, fin), fin) }
+    pub open spec fn fq_off(rs: Seq<FqRec>, crlf: bool, fin: bool, k: int) -> int { off(fq_lines(rs), uniform(4 * rs.len(), crlf, fin), fin, 4 * k) }
+
+    proof fn lemma_fq_lines_ok(rs: Seq<FqRec>, crlf: bool, fin: bool)
+        requires fq_fields_ok(rs)
+        ensures lines_ok(fq_lines(rs), uniform(4 * rs.len(), crlf, fin), fin)
+    {
+        let ls = fq_lines(rs);
+        assert forall|i: int, j: int| 0 <= i < ls.len() && 0 <= j < ls[i].len() implies (#[trigger] ls[i][j]) != 10u8 by {
+            let r = rs[i / 4];
+            if i % 4 == 0 { if j > 0 { assert(r.head[j - 1] != 10u8); } }
+            else if i % 4 == 2 { if j > 0 { assert(r.sep[j - 1] != 10u8); } }
+        }
+        assert forall|i: int| 0 <= i < ls.len() && (#[trigger] ls[i]).len() > 0 implies ls[i][ls[i].len() - 1] != 13u8 by {
+            let r = rs[i / 4];
+        }
+    }
+
+    /// dropping the first byte commutes with trimming (the first byte is not a CR)
+    proof fn lemma_trim_drop_first(raw: Seq<u8>)
+        requires raw.len() >= 1, raw[0] != 13u8
+        ensures trim(raw.subrange(1, raw.len() as int)) == trim(raw).subrange(1, trim(raw).len() as int)
+    {
+        let h = raw.subrange(1, raw.len() as int);
+        if raw.len() >= 2 {
+            assert(h[h.len() - 1] == raw[raw.len() - 1]);
+            if raw[raw.len() - 1] == 13u8 {
+                assert(trim(h) =~= raw.subrange(1, raw.len() - 1));
+                assert(trim(raw).subrange(1, trim(raw).len() as int) =~= raw.subrange(1, raw.len() - 1));
+            } else {
+                assert(trim(raw).subrange(1, trim(raw).len() as int) =~= h);
+            }
+        } else {
+            assert(trim(raw).subrange(1, trim(raw).len() as int) =~= h);
+        }
+    }
+
+    /// the four lines of record k
+    proof fn lemma_fq_line(rs: Seq<FqRec>, k: int)
+        requires 0 <= k < rs.len()
+        ensures fq_lines(rs).len() == 4 * rs.len(),
+                fq_lines(rs)[4 * k] == seq![64u8] + rs[k].head, fq_lines(rs)[4 * k + 1] == rs[k].seq,
+                fq_lines(rs)[4 * k + 2] == seq![43u8] + rs[k].sep, fq_lines(rs)[4 * k + 3] == rs[k].qual,
+    {
+        assert((4 * k) / 4 == k && (4 * k) % 4 == 0);
+        assert((4 * k + 1) / 4 == k && (4 * k + 1) % 4 == 1);
+        assert((4 * k + 2) / 4 == k && (4 * k + 2) % 4 == 2);
+        assert((4 * k + 3) / 4 == k && (4 * k + 3) % 4 == 3);
+    }
+
+    /// where the four line ends of record k are, and what the raw lines trim to
+    proof fn lemma_fq_record(rs: Seq<FqRec>, crlf: bool, fin: bool, k: int)
+        requires fq_fields_ok(rs), 0 <= k < rs.len()
+        ensures ({
+            let ls = fq_lines(rs); let cr = uniform(4 * rs.len(), crlf, fin); let f = fq_text(rs, crlf, fin); let p = fq_off(rs, crlf, fin, k);
+            &&& 0 <= p < f.len() && count_lf(f, p) == 4 * k
+            &&& c1(f, p) + 1 == off(ls, cr, fin, 4 * k + 1) && c2(f, p) + 1 == off(ls, cr, fin, 4 * k + 2) && c3(f, p) + 1 == off(ls, cr, fin, 4 * k + 3)
+            &&& c3(f, p) < f.len() && p < c1(f, p)
+            &&& (k + 1 < rs.len() || fin ==> c4(f, p) + 1 == off(ls, cr, fin, 4 * k + 4) && c4(f, p) < f.len())
+            &&& (!(k + 1 < rs.len() || fin) ==> c4(f, p) == f.len())
+            &&& trim(f.subrange(p, c1(f, p))) == seq![64u8] + rs[k].head
+            &&& g_seq(f, p) == rs[k].seq && g_qual(f, p) == rs[k].qual
+            &&& f[p] == 64u8 && f[c2(f, p) + 1] == 43u8
+            &&& g_seq_cr(f, p) == cr[4 * k + 1] && g_qual_cr(f, p) == cr[4 * k + 3]
+        })
+    {
+        let ls = fq_lines(rs); let cr = uniform(4 * rs.len(), crlf, fin);
+        lemma_fq_lines_ok(rs, crlf, fin);
+        lemma_fq_line(rs, k);
+        lemma_line_rules(ls, cr, fin, 4 * k);
+        lemma_line_rules(ls, cr, fin, 4 * k + 1);
+        lemma_line_rules(ls, cr, fin, 4 * k + 2);
+        lemma_line_rules(ls, cr, fin, 4 * k + 3);
+        assert(ls[4 * k][0] == 64u8);
+        assert(ls[4 * k + 2][0] == 43u8);
+    }
+
+    /// the k-th record of the text: where it starts, what the rules read there, which line it is on
+    pub proof fn lemma_fastq_text(rs: Seq<FqRec>, crlf: bool, fin: bool, k: int)
+        requires fq_fields_ok(rs), 0 <= k < rs.len()
+        ensures
+            [C12,C02|lemma.fastq_text.record_k_is_read_back] gstart(fq_text(rs, crlf, fin), 0, k) == fq_off(rs, crlf, fin, k)
+                && group_complete(fq_text(rs, crlf, fin), fq_off(rs, crlf, fin, k)) && vok(fq_text(rs, crlf, fin), fq_off(rs, crlf, fin, k))
+                && g_head(fq_text(rs, crlf, fin), fq_off(rs, crlf, fin, k)) == rs[k].head
+                && g_seq(fq_text(rs, crlf, fin), fq_off(rs, crlf, fin, k)) == rs[k].seq
+                && g_qual(fq_text(rs, crlf, fin), fq_off(rs, crlf, fin, k)) == rs[k].qual,
+            [C12,C17|lemma.fastq_text.line_number] true_line(fq_text(rs, crlf, fin), fq_off(rs, crlf, fin, k)) == 4 * k + 1,
+            [C12,C02|lemma.fastq_text.next_start] k + 1 < rs.len() ==> c4(fq_text(rs, crlf, fin), fq_off(rs, crlf, fin, k)) + 1 == fq_off(rs, crlf, fin, k + 1),
+            [C12,C02|lemma.fastq_text.end] k + 1 == rs.len() ==> end_ok(fq_text(rs, crlf, fin), c4(fq_text(rs, crlf, fin), fq_off(rs, crlf, fin, k)) + 1),
+        decreases k
+    {
+        let f = fq_text(rs, crlf, fin);
+        let p = fq_off(rs, crlf, fin, k);
+        lemma_fq_record(rs, crlf, fin, k);
+        // header: the line without its first byte
+        let raw0 = f.subrange(p, c1(f, p));
+        assert(raw0[0] == f[p]);
+        lemma_trim_drop_first(raw0);
+        assert(raw0.subrange(1, raw0.len() as int) =~= f.subrange(p + 1, c1(f, p)));
+        assert((seq![64u8] + rs[k].head).subrange(1, rs[k].head.len() as int + 1) =~= rs[k].head);
+        // length verdict
+        assert(may_accept(f, p)) by { reveal(may_accept); }
+        // position in the stream
+        if k == 0 {
+            lemma_off_step(fq_lines(rs), uniform(4 * rs.len(), crlf, fin), fin, 0);
+        } else {
+            lemma_fastq_text(rs, crlf, fin, k - 1);
+        }
+    }
+
     } // verus!
 }
